@@ -915,29 +915,63 @@ class Terms:
         if os.environ.get("MOKAPOT_NO_CALLCANON"):
             return plain
         f = self.prog.funcs.get(qual)
+        is_ctor = False
         if f is None and qual in self.prog.classes:
             f = self.prog.funcs.get(qual + ".__init__")
+            is_ctor = True
         if f is None or isinstance(f.node, ast.Lambda):
             return plain
-        a = f.node.args
-        if a.vararg or a.kwarg or any(x[0] in ("star", "**") or (
-                isinstance(x, tuple) and x and x[0] == "star")
-                for x in args) or any(k == "**" for k, _v in kws):
+        if f.cls is not None and f.params[:1] in (["self"], ["cls"]) and \
+                not (is_ctor or qual.endswith(".__init__")):
+            return plain      # unbound method called through the class
+        r = self._bind_canon(f, args, kws, skip_first=(
+            f.cls is not None and f.params[:1] in (["self"], ["cls"])))
+        if r is None:
             return plain
+        return ("call", qual, r[0], r[1])
+
+    def _canon_mcall(self, recv, meth, args, kws):
+        """The same for a method call whose method name has one signature in
+        the whole package (every class that defines it uses the same
+        parameter names and defaults): x.m(a, k=b) and x.m(a, b)."""
+        plain = ("mcall", recv, meth, args, kws)
+        if os.environ.get("MOKAPOT_NO_CALLCANON"):
+            return plain
+        try:
+            cands = self.prog.methods_named(meth)
+        except Exception:  # noqa: BLE001
+            return plain
+        cands = [g for g in cands if not isinstance(g.node, ast.Lambda)
+                 and g.params[:1] == ["self"]]
+        if not cands:
+            return plain
+
+        def sig(g):
+            return (tuple(g.params), tuple(sorted(
+                (k, ast.dump(v)) for k, v in g.defaults().items())))
+        if len({sig(g) for g in cands}) != 1:
+            return plain
+        r = self._bind_canon(cands[0], args, kws, skip_first=True)
+        if r is None:
+            return plain
+        return ("mcall", recv, meth, r[0], r[1])
+
+    def _bind_canon(self, f, args, kws, skip_first):
+        a = f.node.args
+        if a.vararg or a.kwarg or any(
+                isinstance(x, tuple) and x and x[0] == "star"
+                for x in args) or any(k == "**" for k, _v in kws):
+            return None
         pos = [x.arg for x in a.posonlyargs + a.args]
         kwonly = [x.arg for x in a.kwonlyargs]
-        if f.cls is not None and pos and pos[0] in ("self", "cls") and (
-                qual.endswith(".__init__") or qual in self.prog.classes
-                or f.qual.endswith(".__init__")):
+        if skip_first:
             pos = pos[1:]
-        elif f.cls is not None and pos and pos[0] in ("self", "cls"):
-            return plain      # unbound method called through the class
         if len(args) > len(pos):
-            return plain
+            return None
         bound = dict(zip(pos, args))
         for k, v in kws:
             if k in bound or k not in pos + kwonly:
-                return plain
+                return None
             bound[k] = v
         defaults = {}
         for name, d in f.defaults().items():
@@ -956,7 +990,7 @@ class Terms:
                 out_pos.append(bound.pop(name))
             else:
                 break
-        return ("call", qual, tuple(out_pos),
+        return (tuple(out_pos),
                 tuple(sorted(bound.items(), key=lambda x: x[0])))
 
     def _kw(self, keywords, depth, cenv):
@@ -1028,8 +1062,8 @@ class Terms:
                     return self._canon_call(dn, args, kws)
             if isinstance(fn, ast.Attribute):
                 # self.method(...)
-                return ("mcall", self._t(fn.value, d1, cenv), fn.attr, args,
-                        kws)
+                return self._canon_mcall(self._t(fn.value, d1, cenv),
+                                         fn.attr, args, kws)
             if isinstance(fn, ast.Name):
                 ft = self._t(fn, d1, cenv)
                 if ft[0] in ("name", "func"):
